@@ -137,7 +137,6 @@ class JobSet(BaseJobSet):
         self.handle._inform_observers()
 
     def finished_job(self):
-        self.check_status()
         self.done += 1
         self.handle._inform_observers()
         self.job_name = None
